@@ -104,8 +104,18 @@ def ma_experience(kind, agents, ids):
     single = not isinstance(ids, (list, tuple))
     idl = [ids] if single else list(ids)
 
+    order_no = [0]
+
     def per_agent(fn):
-        return {ag: fn(k) for k, ag in enumerate(agents)}
+        # the {agent: value} dictionaries of the different fields list the agents in different orders
+        # (dictionary order carries no meaning; values belong to their key)
+        order_no[0] += 1
+        ks = list(range(len(agents)))
+        r = order_no[0] % max(1, len(agents))
+        ks = ks[r:] + ks[:r]
+        if order_no[0] % 2 == 0:
+            ks = ks[::-1]
+        return {agents[k]: fn(k) for k in ks}
 
     def sq(x):
         if not single:
